@@ -123,6 +123,11 @@ fn deep_wxml() -> Vec<String> {
         v.push(format!("{}", "<!--".repeat(n)));
         v.push(format!("{}", "&amp".repeat(n)));
     }
+    // wide, not deep: thousands of siblings in one scope (thousands of generated identifiers in one function)
+    for n in [1000usize, 4000] {
+        v.push("<view id=\"i\" class=\"{{a}}\"><text>{{b}}</text></view>".repeat(n));
+        v.push("<v wx:if=\"{{a}}\" b=\"{{c}}\"/>".repeat(n));
+    }
     v
 }
 fn deep_css() -> Vec<String> {
@@ -205,7 +210,7 @@ pub fn search() -> Outcome {
     }
     let mut wx = combos(WX_PIECES, depth);
     wx.extend(deep_wxml());
-    let mut o = drive("wxml", wx, format!("all concatenations of <= {} pieces from a list of {} directed pieces; every recursive construct nested 8/24/48/64 deep, closed and unclosed", depth, WX_PIECES.len()));
+    let mut o = drive("wxml", wx, format!("all concatenations of <= {} pieces from a list of {} directed pieces; every recursive construct nested 8/24/48/64 deep, closed and unclosed; 1000 and 4000 siblings in one scope", depth, WX_PIECES.len()));
     o.evaluations += extra;
     o.bound = format!("{} ; attribute family: 8 hosts x 39 attribute names x 3 letter cases x 6 value forms x 2 shapes", o.bound);
     if o.found {
